@@ -272,6 +272,31 @@ def idspace(F):
                 r.analysed.append(fn["path"])
             if bad:
                 r.violate(key, F.loc(fn, n), "%s is built from the %s: the two index spaces differ as soon as the module has imports of several kinds" % (A.split("::")[-1], bad))
+        # one local wrapped into two different ID newtypes: a value cannot be an index into two spaces at once
+        # (e.g. a per-kind running counter used both as MemoryID and as ImportsID — they coincide only while every import
+        # is of that kind)
+        wrapped = {}
+        for n in walk(fn["body"]):
+            if n.get("k") != "Call":
+                continue
+            fr = n.get("fres") or {}
+            A = fr.get("adt") if fr.get("dk", "").startswith("Ctor") or fr.get("r") == "self" else None
+            if A not in ids or not n["args"]:
+                continue
+            leaf = peel(n["args"][0])
+            while isinstance(leaf, dict) and leaf.get("k") == "Cast":
+                leaf = peel(leaf["a"])
+            if isinstance(leaf, dict) and leaf.get("k") == "Path" and leaf.get("res", {}).get("r") == "local":
+                wrapped.setdefault(leaf["res"]["hid"], {}).setdefault(A.split("::")[-1], n)
+        for hid, tys in wrapped.items():
+            if len(tys) > 1:
+                nm = next((x["res"].get("name") for x in walk(fn["body"]) if x.get("k") == "Path" and x.get("res", {}).get("hid") == hid), "?")
+                key = "%s | local `%s` as %s" % (fn["path"], nm, "+".join(sorted(tys)))
+                if key in reviewed:
+                    r.ob(True, {"fn": fn["path"], "reviewed": reviewed[key]["reason"]})
+                    continue
+                r.ob(False, {"fn": fn["path"], "local": nm, "wrapped_as": sorted(tys)})
+                r.violate(key, F.loc(fn, list(tys.values())[0]), "the same value `%s` is wrapped as %s: it cannot index both spaces (they coincide only in special cases such as an import section of a single kind)" % (nm, " and ".join(sorted(tys))))
         # comparisons of a collection position with the payload of an ID of another space
         for n in walk(fn["body"]):
             if n.get("k") == "Binary" and n["op"] in ("==", "!=", "<", "<=", ">", ">="):
@@ -504,11 +529,13 @@ def reorg_inv(F):
         in_prefix = any(c.startswith("T:idx<orig_num_imported") for c in conds)
         decided = any(c[2:].startswith("idx<orig_num_imported") and "&&" not in c and "||" not in c and "==" not in c for c in conds)
         ambiguous = (not decided) and any("orig_num_imported" in c for c in conds)
+        # a removing path on which the prefix test was never evaluated (e.g. a hoisted `if val.is_deleted() { remove; continue }`)
+        # serves elements on both sides of the import boundary just the same
         label = " ∧ ".join(("" if c[0] == "T" else "¬") + c[2:] for c in conds)
         want_del = removes - inserts
         want_imp = (-1 if (in_prefix and removes > 0) else 0) + (1 if inserts > 0 else 0)
         ok = d_del == want_del and d_imp == want_imp and not bad_idx
-        if ambiguous and removes > 0:
+        if (ambiguous or not decided) and removes > 0:
             # the branch is taken both for elements inside and outside the import prefix (the prefix test is buried in a
             # compound condition): a removal inside the prefix needs Δnum_imported = -1, outside it needs 0 — one update cannot serve both
             ok = False
@@ -565,7 +592,7 @@ def locals_owner(F):
         fresh = {st["pat"]["hid"] for st in walk(fn["body"]) if st.get("k") == "Let" and st["pat"].get("k") == "Binding" and LT in (st["pat"].get("ty") or "") and not (st["pat"].get("ty") or "").startswith("&")}
         for n in walk(fn["body"]):
             rt = (n.get("recv_ty") or "") + " " + ((n.get("recv") or {}).get("ty") or "") if n.get("k") == "MethodCall" else ""
-            if n.get("k") == "MethodCall" and n["method"] in MUTM and (LT in rt or "[(u32, ir::types::DataType)]" in rt):
+            if n.get("k") == "MethodCall" and (n["method"] in MUTM or n["method"].startswith(("sort", "dedup", "retain", "drain", "extend", "swap", "rotate", "resize"))) and (LT in rt or "[(u32, ir::types::DataType)]" in rt):
                 root = n["recv"]
                 while isinstance(root, dict) and root.get("k") in ("Field", "Index", "Unary", "AddrOf", "MethodCall"):
                     root = root.get("base") or root.get("a") or root.get("recv")
@@ -1074,4 +1101,62 @@ def local_count_guard(F):
                           "code emission" if fn["name"] == "encode_internal" else "special-instrumentation lowering", ", ".join(sorted({f["name"] for f, _, b in flippers if not b})) or "?"))
     if not flippers:
         raise CheckError("no set_kind(FuncKind::Local ..) site found (anchor moved?)")
+    return r
+
+
+# ---------------------------------------------------------------- R-KIND-MIX
+FAMILY = {}
+for _k, _names in (("func", ("num_funcs", "num_funcs_added", "num_local_functions", "functions")),
+                   ("global", ("num_globals", "num_globals_added", "num_local_globals", "globals")),
+                   ("memory", ("num_memories", "num_memories_added", "num_local_memories", "memories")),
+                   ("table", ("num_tables", "num_tables_added", "tables")),
+                   ("tag", ("num_tags", "num_tags_added", "tags"))):
+    for _n in _names:
+        FAMILY[_n] = _k
+
+
+def kind_mix(F):
+    """The bookkeeping of the three re-indexable kinds is kept in parallel families of fields (num_X, num_X_added,
+    num_local_X, the X collection).  An arithmetic expression, or the argument list of one call, that combines fields of
+    two different families is a copy-paste slip: `imports.num_memories - imports.num_globals_added`."""
+    r = RuleResult("R-KIND-MIX",
+                   "no arithmetic expression and no single call's argument list combines bookkeeping fields of two different entity kinds (function/global/memory/table/tag counters and collections)")
+    n = 0
+    for fn in F.fns:
+        if fn.get("body") is None:
+            continue
+
+        def fams(e):
+            out = {}
+            for x in walk(e):
+                if x.get("k") == "Field" and x["name"] in FAMILY:
+                    out.setdefault(FAMILY[x["name"]], x["name"])
+            return out
+
+        seen_spans = set()
+        for e in walk(fn["body"]):
+            judged = None
+            if e.get("k") == "Binary" and e.get("op") in ("+", "-"):
+                # only outermost arithmetic node
+                judged = e
+            elif e.get("k") in ("Call", "MethodCall") and e.get("args") and any("recalculate_ids" in (c or "") or "get_mapping_generic" in (c or "") or "reorganise_generic" in (c or "") for c in (e.get("callee"), e.get("inst"))):
+                judged = e
+            if judged is None:
+                continue
+            sp = tuple(judged["sp"])
+            if any(s_[0] <= sp[0] and (s_[0], s_[1]) <= (sp[0], sp[1]) and (sp[2], sp[3]) <= (s_[2], s_[3]) and s_ != sp for s_ in seen_spans):
+                continue
+            seen_spans.add(sp)
+            f = fams(judged)
+            if not f:
+                continue
+            n += 1
+            ok = len(f) == 1
+            if fn["path"] not in r.analysed:
+                r.analysed.append(fn["path"])
+            r.ob(ok, {"fn": fn["path"], "line": judged["sp"][0], "families": sorted(f)})
+            if not ok:
+                r.violate("%s | mixes %s" % (fn["path"], "+".join(sorted(f.values()))), F.loc(fn, judged),
+                          "one expression combines bookkeeping of different kinds (%s): the count/offset it computes belongs to neither index space" % ", ".join("%s (%s)" % (v, k) for k, v in sorted(f.items())))
+    r.count("kind_expressions", n)
     return r
